@@ -37,12 +37,12 @@ func c04Profile() *sm.Profile {
 		BadIds:      true,
 		BadDocs:     true,
 		Crit:        gen.CritEnv{Val: gen.ValCfg{MaxDepth: 0}, MaxDepth: 2, NoFunc: true, Bad: true},
-		Weights: []sm.W{{Kind: "biginsert", Weight: 1}, {Kind: "bigimport", Weight: 1}, {Kind: "createcoll", Weight: 4}, {Kind: "dropcoll", Weight: 5}, {Kind: "insert", Weight: 16}, {Kind: "insertone", Weight: 2},
+		Weights: []sm.W{{Kind: "biginsert", Weight: 3}, {Kind: "bigimport", Weight: 2}, {Kind: "createcoll", Weight: 4}, {Kind: "dropcoll", Weight: 5}, {Kind: "insert", Weight: 16}, {Kind: "insertone", Weight: 2},
 			{Kind: "save", Weight: 5}, {Kind: "replace", Weight: 6}, {Kind: "updatebyid", Weight: 7}, {Kind: "update", Weight: 10},
 			{Kind: "updatefunc", Weight: 10}, {Kind: "delete", Weight: 8}, {Kind: "deletebyid", Weight: 6}, {Kind: "createindex", Weight: 8},
 			{Kind: "dropindex", Weight: 6}, {Kind: "import", Weight: 7}, {Kind: "createbyquery", Weight: 7}, {Kind: "export", Weight: 3},
 			{Kind: "find", Weight: 5}, {Kind: "count", Weight: 3}, {Kind: "findbyid", Weight: 2}, {Kind: "exists", Weight: 2},
-			{Kind: "findfirst", Weight: 2}, {Kind: "foreach", Weight: 2}, {Kind: "listcolls", Weight: 1}, {Kind: "hascoll", Weight: 1},
+			{Kind: "findfirst", Weight: 2}, {Kind: "foreach", Weight: 2}, {Kind: "iterate", Weight: 2}, {Kind: "listcolls", Weight: 1}, {Kind: "hascoll", Weight: 1},
 			{Kind: "hasindex", Weight: 1}, {Kind: "listindexes", Weight: 1}},
 	}
 }
@@ -170,7 +170,7 @@ func init() {
 func TestC04(t *testing.T) {
 	col := collector("C04", ruleC04)
 	maxPos := ev.Scale(40, 400)
-	check(t, "C04", cases(600, 3000), 0, func(rt *rapid.T) {
+	check(t, "C04", cases(800, 3000), 0, func(rt *rapid.T) {
 		backend := rapid.SampledFrom([]string{run.Bbolt, run.Bbolt, run.BadgerMem}).Draw(rt, "backend")
 		p := c04Profile()
 		s, err := c04Session(backend)
@@ -192,6 +192,13 @@ func TestC04(t *testing.T) {
 			do(build.Draw(rt, s))
 		}
 		op := p.Draw(rt, s)
+		if backend == run.BadgerMem && rapid.IntRange(0, 5).Draw(rt, "force-big") == 0 {
+			// on the in-memory badger store a batch of thousands exceeds one store transaction: the
+			// operation must be refused as a whole, whichever store call fails
+			big := *p
+			big.Weights = []sm.W{{Kind: "biginsert", Weight: 3}, {Kind: "bigimport", Weight: 2}}
+			op = big.Draw(rt, s)
+		}
 		if op.Q != nil && op.Kind != "createbyquery" && rapid.IntRange(0, 11).Draw(rt, "force-bad-literal") == 0 {
 			// invalid input of the query kind: an operand that cannot be normalised
 			op.Q.Crit = &cs.Crit{Op: rapid.SampledFrom([]string{"gt", "eq", "in"}).Draw(rt, "badop"), Field: "x", Arg: &cs.Operand{Kind: "bad"}}
